@@ -13,6 +13,12 @@ out = tempfile.mkdtemp(prefix="baseline_")
 xml = os.path.join(out, "junit.xml")
 cmd = ["/venv/bin/python", "-m", "pytest", "-q", "-p", "no:cacheprovider", "--timeout=900", "--continue-on-collection-errors", "--no-cov", "-rf", "-n", jobs, f"--junitxml={xml}"]
 env = dict(os.environ)
+# tests that use pydra's default cache root share ~/.cache/pydra/<version>/run-cache between checkouts:
+# a pickle left there by another tree (e.g. a seeded change) breaks unrelated tests. Give the run its own.
+_xdg = tempfile.mkdtemp(prefix="xdgcache_")
+env["XDG_CACHE_HOME"] = _xdg
+import atexit, shutil
+atexit.register(lambda: shutil.rmtree(_xdg, ignore_errors=True))
 p = subprocess.run(cmd, cwd=repo, env=env, stdout=subprocess.PIPE, stderr=subprocess.STDOUT, text=True)
 tail = p.stdout.strip().splitlines()[-3:]
 passed = set()
